@@ -9,6 +9,8 @@ open AbtemVerif AbtemVerif.Proto AbtemVerif.ExitPlanes AbtemVerif.Multislice Abt
         → `ok <entry>;<entry>…` row-major over (configuration, exit index); entry = member histories joined by `|`
           (a history = incident member id followed by the slice ids applied, comma separated), `z` = none
         | `err <kind>` (the potential has no exit planes)
+   `eager2 <nrows> <ncols> …` / `lazy2 <row chunks> <column chunks> <nrows> <ncols> …`: the same for a batch with two ensemble
+        axes (member (r, c) has incident id 1000 + r*ncols + c); entry = rows joined by `/`, members by `|`
    `dims <numArgs> <sumArgNdims> <arrayNdim>` → `ok <packed ndims> <declared out ndims>`
    `defchunks <len(ensemble_shape)> <num exit planes>` → `ok <default ensemble chunks of MultisliceTransform>`
    anything else → `bad-op` -/
@@ -24,7 +26,34 @@ def table (entry : Nat → Nat → Option (List Hist)) (ncfg nplanes : Nat) : St
 handed over in reciprocal space) -/
 def batch (ids : List Nat) (recip : Bool) : List Hist := ids.map fun i => ensureReal htoReal recip [i]
 
+/-- a two-axis batch: member `(r, c)` has incident id `1000 + r * ncols + c` -/
+def batch2 (nrows ncols : Nat) (recip : Bool) : List (List Hist) :=
+  (List.range nrows).map fun r => (List.range ncols).map fun c => ensureReal htoReal recip [1000 + r * ncols + c]
+
+def showMembers2 : Option (List (List Hist)) → String
+  | none => "z"
+  | some rows => "/".intercalate (rows.map fun hs => "|".intercalate (hs.map fun h => showList toString h))
+
+def table2 (entry : Nat → Nat → Option (List (List Hist))) (ncfg nplanes : Nat) : String :=
+  ";".intercalate ((List.range ncfg).flatMap fun c => (List.range nplanes).map fun e => showMembers2 (entry c e))
+
 def handle : List String → String
+  | ["eager2", nrows, ncols, ens, planes, nslices, configs, recip] =>
+    match parseNat? nrows, parseNat? ncols, parseBool? ens, parseList? parseInt? planes, parseNat? nslices,
+          parseListList? parseNat? configs, parseBool? recip with
+    | some nr, some nc, some ens, some pl, some ns, some cfgs, some rc =>
+      let p : Pot Nat := ⟨ens, pl, ns, cfgs⟩
+      if pl.isEmpty then "err index_error"
+      else s!"ok {table2 (eagerEntry2 hstep hdetect (batch2 nr nc rc) p) cfgs.length pl.length}"
+    | _, _, _, _, _, _, _ => "bad-op"
+  | ["lazy2", cX, cY, nrows, ncols, ens, planes, nslices, configs, recip] =>
+    match parseList? parseNat? cX, parseList? parseNat? cY, parseNat? nrows, parseNat? ncols, parseBool? ens,
+          parseList? parseInt? planes, parseNat? nslices, parseListList? parseNat? configs, parseBool? recip with
+    | some cX, some cY, some nr, some nc, some ens, some pl, some ns, some cfgs, some rc =>
+      let p : Pot Nat := ⟨ens, pl, ns, cfgs⟩
+      if pl.isEmpty then "err index_error"
+      else s!"ok {table2 (lazyEntry2 hstep hdetect cX cY (batch2 nr nc rc) p) cfgs.length pl.length}"
+    | _, _, _, _, _, _, _, _, _ => "bad-op"
   | ["eager", ids, ens, planes, nslices, configs, recip] =>
     match parseList? parseNat? ids, parseBool? ens, parseList? parseInt? planes, parseNat? nslices,
           parseListList? parseNat? configs, parseBool? recip with
